@@ -5,7 +5,7 @@
    Proofs/C18*.v.  Arithmetic is exact (Q); binary64 rounding is outside the model. *)
 From Coq Require Import QArith List Bool Arith Permutation.
 From DV Require Import Model.C18Model.
-From DV Require Import Proofs.C18Lists Proofs.C18Tree Proofs.C18Monad Proofs.C18BD Proofs.C18FBD Proofs.C18PB Proofs.C18Coal Proofs.C18CC Proofs.C18Examples Proofs.C18Final.
+From DV Require Import Proofs.C18Lists Proofs.C18Tree Proofs.C18Monad Proofs.C18BD Proofs.C18FBD Proofs.C18PB Proofs.C18Coal Proofs.C18CC Proofs.C18Frame Proofs.C18Examples Proofs.C18Final.
 Import ListNotations.
 Open Scope nat_scope.
 
@@ -215,9 +215,19 @@ Theorem contained_terminates : forall S script, cc_sim S script <> NoFuel.
 Proof. exact cc_fuel_proved. Qed.
 Print Assumptions contained_terminates.
 
-(* ---- determinism: the model is a function of (arguments, script) - an interface lemma; the
-   meaningful half (the implementation consumes exactly the model's draws in the same order and
-   never touches GLOBAL_RNG) is the draw-trace correspondence of py/dv/c18.py ---- *)
+(* ---- reproducibility, model side: the result of every simulator depends only on the script
+   entries it consumed - runs from generator states that agree on those draws return identical
+   trees, taxa and generator calls, and leave exactly the unconsumed entries.  The implementation
+   side (the library consumes exactly the model's draws in the same order and never touches
+   GLOBAL_RNG) is the draw-trace correspondence of py/dv/c18.py ---- *)
+Theorem draws_local : forall (s : simcall) (script : list draw) res rest calls,
+  run_sim s script = Done res (rest, calls) ->
+  exists used, script = used ++ rest /\
+               forall rest', run_sim s (used ++ rest') = Done res (rest', calls).
+Proof. exact draws_local_proved. Qed.
+Print Assumptions draws_local.
+
+(* the model is a function of (arguments, script): an interface lemma *)
 Theorem deterministic : forall (s : simcall) (script1 script2 : list draw),
   script1 = script2 -> run_sim s script1 = run_sim s script2.
 Proof. exact deterministic_proved. Qed.
